@@ -16,7 +16,7 @@ SPEC = {
              "tucan.test_utils.permutation_invariance is run under the contract. distinct_nontrivial = distinct (molecule, seed) pairs with >=2 bonds, not complete"),
     "assumptions": ["seeds in [0,1) as documented"],
     "monitors_required": ["c16_permute"],
-    "required_obs": {"quick": ["cov_enforced", "cov_not_enforced_complete", "cov_not_enforced_few_bonds", "cov_star_or_near_complete", "cov_via_test_utils", "cov_corpus", "cov_nonconsecutive_labels"]},
+    "required_obs": {"quick": ["cov_enforced", "cov_not_enforced_complete", "cov_not_enforced_few_bonds", "cov_star_or_near_complete", "cov_via_test_utils", "cov_corpus", "cov_nonconsecutive_labels", "cov_input_iteration_order_differs_from_labels"]},
     "watchdog_s": {"quick": 900, "thorough": 3600},
 }
 PLAN = {
@@ -27,6 +27,10 @@ GRID = [0.0, 0.1, 0.25, 0.42, 0.5, 0.75, 0.999999]
 
 
 def run_case(ctx, case):
+    return common.case_guard(ctx, case, _run_case)
+
+
+def _run_case(ctx, case):
     import networkx as nx
     import tucan.graph_utils as gu
     import tucan.test_utils as tu
@@ -35,6 +39,14 @@ def run_case(ctx, case):
     g0, mol = molprops.build_case_graph(case)
     for u, v, d in g0.edges(data=True):
         d.setdefault(bridge.BTAG, f"{min(u, v)}-{max(u, v)}")
+    if case.get("labels") != "gaps" and rng.random() < 0.5:
+        # node iteration order != label order: what nx.relabel_nodes / canonicalize_molecule hand on
+        if rng.random() < 0.5:
+            g0 = bridge.harness_relabel(g0, rng)[0]
+        else:
+            import tucan.canonicalization as c
+            g0 = monitors.S.orig.get("canonicalize_molecule", c.canonicalize_molecule)(g0)
+        ctx.count("cov_input_iteration_order_differs_from_labels")
     if case.get("labels") == "gaps":
         g0 = nx.relabel_nodes(g0, {v: 3 * v + 7 for v in g0.nodes}, copy=True)
         ctx.count("cov_nonconsecutive_labels")
